@@ -79,10 +79,13 @@ def rules(ctx, db):
         lk = [bb for bb, t in calls(f, r"std::sync::(poison::mutex::)?Mutex::<T>::lock$|Mutex::<T>::lock$")]
         ck = [bb for bb, t in calls(f, r"HashMap::<.*>::contains_key$")]
         ins = [bb for bb, t in calls(f, r"HashMap::<.*>::insert$")]
-        ok = len(lk) == 1 and len(ck) == 1 and len(ins) == 1 and f.cfg.dominates(lk[0], ck[0]) and f.cfg.dominates(ck[0], ins[0]) and \
-            guarded_by_bool(f, ins[0], r"HashMap::<.*>::contains_key$", False) is not None
+        gt_ = [bb for bb, t in calls(f, r"HashMap::<.*>::(get|get_mut)$")]
+        absent = bool(ins) and (guarded_by_bool(f, ins[0], r"HashMap::<.*>::contains_key$", False) is not None or
+                                guarded_by_variant(f, ins[0], r"HashMap::<.*>::(get|get_mut)$", 0) is not None)
+        ok = len(lk) == 1 and len(ins) == 1 and bool(ck + gt_) and f.cfg.dominates(lk[0], (ck + gt_)[0]) and absent
         ctx.ob("R3", "reserve-check-and-insert-under-one-lock", ok,
-               "the name is tested and inserted under a single lock acquisition (two actors cannot both reserve one name)", f)
+               "the name is inserted only on the edge where the map has *no entry at all* for it (contains_key false / "
+               "get() == None), under the same lock acquisition: a name that is reserved but not yet activated is taken too", f)
         # inserted value is None (invisible until activated)
         nn = any(s.get("r", {}).get("k") == "agg" and s["r"].get("var") == "None" for bi, si, s in f.stmts())
         ctx.ob("R3", "reserved-entry-is-invisible", nn, "a reserved name maps to None until start-up succeeded", f)
